@@ -15,14 +15,17 @@
     The names a serving daemon gives the selected files — which, joined to
     the destination, are the paths the receiver writes — are covered by
     [every_object_under_the_requested_root_is_listed],
-    [contents_of_a_directory_requested_with_a_slash] and
+    [contents_of_a_directory_requested_with_a_slash],
+    [directory_requested_with_a_slash_lands_its_contents_directly],
+    [path_requested_without_a_slash_keeps_its_module_relative_name] and
     [other_requests_keep_the_module_relative_path] (model: Model/Serve.v,
     tied to the real daemon by the serve component and to the destination
     tree by the sync component).
     What is NOT a theorem (correspondence only, see DESIGN.md): the client's
     own argument handling in the push / local arrangements (absolute paths are
-    split into directory and last element before the same walk runs) and
-    filepath.Clean's action on the request (modelled, [path_clean]).
+    split into directory and last element before the same walk runs);
+    filepath.Clean is modelled ([path_clean]) and compared with the real one
+    by the flist / serve components.
     KNOWN FINDING visible in [mapping_examples]: a nested path requested
     *without* trailing slash (module/d/e) keeps its whole module-relative
     path (d/e/...) where rsync names it by its last element (e/...). *)
@@ -108,6 +111,25 @@ Theorem contents_of_a_directory_requested_with_a_slash :
   forall p0 rel, p0 <> [] -> wire_name (render p0 ++ [slash]) (p0 ++ rel) = render rel.
 Proof. exact wire_name_contents. Qed.
 
+(** The same for the request as the daemon receives it, "/c1/.../ck/" with
+    ordinary components (no slash inside, none empty, "." or ".."): whatever
+    exists under that directory is listed under its path relative to it —
+    filepath.Clean, the strip prefix and the walk root included. *)
+Theorem directory_requested_with_a_slash_lands_its_contents_directly :
+  forall p0, p0 <> [] -> Forall (fun c => good_comp c = true) p0 ->
+  forall t sub rel node, lookup t p0 = Some sub -> lookup sub rel = Some node ->
+    In (render rel) (serve_names t (slash :: render_from p0 ++ [slash])).
+Proof. exact directory_contents_named_relative. Qed.
+
+(** "/c1/.../ck" without trailing slash: listed under the module-relative
+    path.  For k = 1 this is rsync's naming (the directory's own name, then the
+    relative path); for k > 1 rsync names by ck alone — the known finding. *)
+Theorem path_requested_without_a_slash_keeps_its_module_relative_name :
+  forall p0, p0 <> [] -> Forall (fun c => good_comp c = true) p0 ->
+  forall t sub rel node, lookup t p0 = Some sub -> lookup sub rel = Some node ->
+    In (render (p0 ++ rel)) (serve_names t (slash :: render_from p0)).
+Proof. exact path_named_module_relative. Qed.
+
 (** Any other request: the module-relative path. *)
 Theorem other_requests_keep_the_module_relative_path :
   forall p, wire_name [] p = render p.
@@ -131,3 +153,5 @@ Print Assumptions sync_session_correct.
 Print Assumptions every_object_under_the_requested_root_is_listed.
 Print Assumptions contents_of_a_directory_requested_with_a_slash.
 Print Assumptions other_requests_keep_the_module_relative_path.
+Print Assumptions directory_requested_with_a_slash_lands_its_contents_directly.
+Print Assumptions path_requested_without_a_slash_keeps_its_module_relative_name.
